@@ -1,3 +1,6 @@
+#ifdef VH_RO_GLOBALS
+#define _GNU_SOURCE
+#endif
 #include <stdarg.h>
 #include <unistd.h>
 #include <signal.h>
@@ -116,6 +119,28 @@ static VhOp ops[] = {
 #endif
 };
 
+#ifdef VH_RO_GLOBALS
+// Make every writable segment of the library's shared object read-only: any later write to a
+// library global (i.e. state shared between readers) faults.
+#include <link.h>
+#include <sys/mman.h>
+static int ro_cb(struct dl_phdr_info *info, size_t size, void *data)
+{
+	int i;
+	(void) size;
+	if (info->dlpi_name == NULL || strstr(info->dlpi_name, "liblhasa_ro") == NULL) return 0;
+	for (i = 0; i < info->dlpi_phnum; ++i) {
+		const ElfW(Phdr) *ph = &info->dlpi_phdr[i];
+		if (ph->p_type == PT_LOAD && (ph->p_flags & PF_W)) {
+			uintptr_t start = (info->dlpi_addr + ph->p_vaddr) & ~(uintptr_t) 4095;
+			uintptr_t end = (info->dlpi_addr + ph->p_vaddr + ph->p_memsz + 4095) & ~(uintptr_t) 4095;
+			if (mprotect((void *) start, end - start, PROT_READ) == 0) ++*(int *) data;
+		}
+	}
+	return 0;
+}
+#endif
+
 static void on_alarm(int sig)
 {
 	static const char msg[] = "TIMEOUT\n";
@@ -133,6 +158,13 @@ int main(int argc, char **argv)
 
 	if (argc > 1) per_op_seconds = (unsigned int) atoi(argv[1]);
 	signal(SIGALRM, on_alarm);
+#ifdef VH_RO_GLOBALS
+	{
+		int n = 0;
+		dl_iterate_phdr(ro_cb, &n);
+		if (n == 0) { puts("ro-protect-failed"); return 4; }
+	}
+#endif
 
 	while ((n = getline(&line, &cap, stdin)) > 0) {
 		char *toks[64];
